@@ -301,6 +301,45 @@ func (a *E3) cellOf(v ssa.Value) ssa.Value {
 	}
 }
 
+// argSliceRoot: v is (a re-slice of, a loop-carried copy of, the result of appending to) a slice parameter of a top-level function:
+// that parameter — its backing array belongs to the caller.
+func (a *E3) argSliceRoot(v ssa.Value) *ssa.Parameter {
+	seen := map[ssa.Value]bool{}
+	var rec func(v ssa.Value) *ssa.Parameter
+	rec = func(v ssa.Value) *ssa.Parameter {
+		if v == nil || seen[v] {
+			return nil
+		}
+		seen[v] = true
+		switch x := v.(type) {
+		case *ssa.Parameter:
+			if x.Parent() != nil && x.Parent().Parent() == nil {
+				if _, isSl := x.Type().Underlying().(*types.Slice); isSl {
+					return x
+				}
+			}
+		case *ssa.Slice:
+			return rec(x.X)
+		case *ssa.Phi:
+			for _, e := range x.Edges {
+				if p := rec(e); p != nil {
+					return p
+				}
+			}
+		case *ssa.Call:
+			if b, ok := x.Call.Value.(*ssa.Builtin); ok && b.Name() == "append" && len(x.Call.Args) > 0 {
+				return rec(x.Call.Args[0])
+			}
+		case *ssa.FreeVar:
+			if b, ok := a.bind[x]; ok {
+				return rec(b)
+			}
+		}
+		return nil
+	}
+	return rec(v)
+}
+
 func (a *E3) addCell(c ssa.Value, o O) {
 	if a.cell[c]|o != a.cell[c] {
 		a.cell[c] |= o
@@ -454,6 +493,11 @@ func (a *E3) doCall(fn *ssa.Function, instr ssa.Instruction, c *ssa.CallCommon, 
 					a.set(res, t|oFRESH)
 				}
 			} else if res != nil {
+				// appending to a (re-slice of a) slice the caller handed in — `missing := keys[:0]; missing = append(missing, k)` — writes
+				// into the caller's backing array whenever its capacity allows
+				if par := a.argSliceRoot(c.Args[0]); par != nil {
+					a.effect(fn, instr, "append-arg", a.paramBitOf(par), a.get(c.Args[1]))
+				}
 				// the result is the first operand's storage or a fresh array; the appended elements are copied (their origins go to the cell)
 				a.set(res, a.get(c.Args[0])|oFRESH)
 				a.addCell(a.cellOf(res), a.cell[a.cellOf(c.Args[0])]|a.get(c.Args[1])|a.cell[a.cellOf(c.Args[1])])
@@ -461,6 +505,8 @@ func (a *E3) doCall(fn *ssa.Function, instr ssa.Instruction, c *ssa.CallCommon, 
 		case "copy":
 			if a.isSpine(c.Args[0].Type()) {
 				a.effect(fn, instr, "copy-into", a.get(c.Args[0])&oROOTS, a.get(c.Args[1]))
+			} else if par := a.argSliceRoot(c.Args[0]); par != nil {
+				a.effect(fn, instr, "copy-arg", a.paramBitOf(par), a.get(c.Args[1])) // overwrites a slice owned by the caller
 			}
 		case "delete":
 			if a.isSpine(c.Args[0].Type()) {
